@@ -58,7 +58,8 @@ def gen_model(rng, env, tbl, classes_by_name):
     for col in ("a", "b"):
         new = rng.choice([None, "Col_" + col])
         res = new or col
-        a2 = [("InFileName", env["in"]), ("InFieldName", Name(col))] + ([("NewFieldName", Name(new))] if new else [])
+        # the file name is handed on as written (other spellings of the same path are not tidied up)
+        a2 = [("InFileName", rng.choice(env.get("in_spellings", [env["in"]]))), ("InFieldName", Name(col))] + ([("NewFieldName", Name(new))] if new else [])
         if rng.random() < 0.3:
             a2.append(("OutFileName", "ignored.csv"))
         rng.shuffle(a2)
@@ -130,7 +131,8 @@ def run(ctx):
     tbl = table()
     tmp = common.tmpdir("mpv_c16_")
     open(os.path.join(tmp, "in.csv"), "w").write("a,b\n1,2\n3,5\n4,-1\n")
-    env = {"in": "in.csv"}
+    os.makedirs(os.path.join(tmp, "sub"), exist_ok=True)
+    env = {"in": "in.csv", "in_spellings": ["in.csv", "in.csv", "./in.csv", "sub/../in.csv", ".//in.csv", "sub//..//in.csv"]}
     csv_lib = Program(EEMS_CSV_LIBRARIES).command_library
     nc_lib = Program(EEMS_NETCDF_LIBRARIES).command_library
     # (1) the table obligation, evaluated on the implementation: failing rows are concrete failing inputs
@@ -173,7 +175,22 @@ def run(ctx):
         if outs[0][0] != outs[1][0] and not (outs[0][0] != "ok" and outs[1][0] != "ok"):
             ctx.fail("the EEMS 2.0 file %s but its MPilot translation %s" % ("loads" if outs[0][0] == "ok" else "fails with " + outs[0][0],
                                                                               "loads" if outs[1][0] == "ok" else "fails with " + outs[1][0]), desc)
-        elif outs[0][0] == "ok":
+        # the same EEMS 2.0 text loaded again in the same process, and by a caller who has turned warnings into errors: the same program
+        import warnings
+        for how in ("again", "warnings-as-errors"):
+            try:
+                with warnings.catch_warnings():
+                    if how == "warnings-as-errors":
+                        warnings.simplefilter("error")
+                    again = ("ok", Program.from_source(s2.source, libraries=LIBS, working_dir=tmp))
+            except Exception as e:
+                again = (progrun.classify(e), None)
+            ctx.count("eems2_reloads")
+            if again[0] != outs[0][0] or (again[0] == "ok" and structure(again[1]) != structure(outs[0][1])):
+                ctx.fail("the EEMS 2.0 file loaded a second time (%s) gives %s; the first load gave %s" % (
+                    how, again[0] if again[0] != "ok" else "another program", outs[0][0] if outs[0][0] != "ok" else "a program"), desc)
+                break
+        if outs[0][0] == "ok" and outs[1][0] == "ok":
             a, b = structure(outs[0][1]), structure(outs[1][1])
             if a != b:
                 diff = next((x, y) for x, y in zip(a + [None], b + [None]) if x != y)
